@@ -25,6 +25,24 @@ theorem sortBy_perm' {α} (key : α → Rat) (l : List α) : (sortBy key l).Perm
     simp only [List.foldr_cons]
     exact (insertBy_perm key x _).trans (ih.cons x)
 
+theorem insertByStr_perm {α} (key : α → String) (x : α) : ∀ l : List α, (insertByStr key x l).Perm (x :: l) := by
+  intro l
+  induction l with
+  | nil => exact List.Perm.refl _
+  | cons y ys ih =>
+    simp only [insertByStr]
+    split
+    · exact List.Perm.refl _
+    · exact ((ih.cons y).trans (List.Perm.swap x y ys))
+
+theorem sortByStr_perm {α} (key : α → String) (l : List α) : (sortByStr key l).Perm l := by
+  unfold sortByStr
+  induction l with
+  | nil => exact List.Perm.refl _
+  | cons x xs ih =>
+    simp only [List.foldr_cons]
+    exact (insertByStr_perm key x _).trans (ih.cons x)
+
 theorem insertBy_sorted {α} (key : α → Rat) (x : α) :
     ∀ l : List α, l.Pairwise (fun a b => key a ≤ key b) → (insertBy key x l).Pairwise (fun a b => key a ≤ key b) := by
   intro l
@@ -75,6 +93,28 @@ theorem mapE_mem {α β ε} (f : α → Except ε β) :
         · obtain ⟨x', hx', hf⟩ := ih ys0 hxs y hy'
           exact ⟨x', List.mem_cons_of_mem _ hx', hf⟩
 
+theorem mapE_mem_fwd {α β ε} (f : α → Except ε β) :
+    ∀ (xs : List α) (ys : List β), mapE f xs = .ok ys → ∀ x ∈ xs, ∃ y ∈ ys, f x = .ok y := by
+  intro xs
+  induction xs with
+  | nil => intro ys _ x hx; simp at hx
+  | cons x0 xs ih =>
+    intro ys h x hx
+    simp only [mapE] at h
+    cases hx0 : f x0 with
+    | error e => simp [hx0] at h
+    | ok y0 =>
+      simp only [hx0] at h
+      cases hxs : mapE f xs with
+      | error e => simp [hxs] at h
+      | ok ys0 =>
+        simp only [hxs, Except.ok.injEq] at h
+        subst h
+        rcases List.mem_cons.mp hx with rfl | hx'
+        · exact ⟨y0, List.mem_cons_self, hx0⟩
+        · obtain ⟨y, hy, hf⟩ := ih ys0 hxs x hx'
+          exact ⟨y, List.mem_cons_of_mem _ hy, hf⟩
+
 /-! ### `addTriples` -/
 
 theorem mem_addTriples {g : Graph} {ts : List Triple} {t : Triple} :
@@ -124,7 +164,7 @@ theorem addTriples_of_subset {g : Graph} {ts : List Triple} (h : ∀ t ∈ ts, t
 def FiresOn (c : RCtx) (r : Rule) (g : Graph) (a : Term) (t : Triple) : Prop :=
   match r.kind with
   | .triple s p o => ∃ ts, tripleOutput c g s p o a = .ok ts ∧ t ∈ ts
-  | .sparql cs => ∃ k ∈ cs, t ∈ evalConstruct g k (if k.usesThis then [("this", a)] else [])
+  | .sparql cs => ∃ k ∈ cs, t ∈ evalConstruct (callByPosition c.fns c.adv) g k (if k.usesThis then [("this", a)] else [])
 
 theorem roundOutputs_sound {c : RCtx} {r : Rule} {g : Graph} {nodes : List Term} {toAdd : List Triple} {added : Nat}
     (h : roundOutputs c r g nodes = .ok (toAdd, added)) {t : Triple} (ht : t ∈ toAdd) :
@@ -202,7 +242,7 @@ theorem Sub.trans {a b c : Graph} (h1 : Sub a b) (h2 : Sub b c) : Sub a c := fun
 /-- one justified firing -/
 structure Firing (c : RCtx) (rules : List Rule) (g0 : Graph) (t : Triple) : Prop where
   ex : ∃ r ∈ rules, r.deactivated = false ∧ ∃ gf gr foci nodes a,
-      Sub g0 gf ∧ Sub gf gr ∧ ruleFocus c r gf = some foci ∧ applicable c r gr foci = .ok nodes ∧ a ∈ nodes ∧
+      Sub g0 gf ∧ Sub gf gr ∧ ruleFocus c r gf = .ok (some foci) ∧ applicable c r gr foci = .ok nodes ∧ a ∈ nodes ∧
       FiresOn c r gr a t
 
 def Just (c : RCtx) (rules : List Rule) (g0 g : Graph) : Prop :=
@@ -217,7 +257,7 @@ theorem Firing.weaken {c : RCtx} {rules rules' : List Rule} {g0 : Graph} {t : Tr
 
 /-- the result of a rule's loop: grows, is justified, and reports 0 only when nothing changed -/
 theorem ruleLoop_spec {c : RCtx} {rules : List Rule} {r : Rule} (hr : r ∈ rules) (hact : r.deactivated = false)
-    {g0 gf : Graph} {foci : List Term} (hf : ruleFocus c r gf = some foci) (h0f : Sub g0 gf) (iter : Bool) :
+    {g0 gf : Graph} {foci : List Term} (hf : ruleFocus c r gf = .ok (some foci)) (h0f : Sub g0 gf) (iter : Bool) :
     ∀ (n : Nat) (g : Graph) (all : Nat) (g' : Graph) (m : Nat),
       ruleLoop c r foci iter n g all = .ok (g', m) → Sub gf g → Just c rules g0 g →
       Sub g g' ∧ Just c rules g0 g' ∧ all ≤ m ∧ (m = all → g' = g) := by
@@ -267,6 +307,9 @@ theorem applyRule_spec {c : RCtx} {rules : List Rule} {r : Rule} (hr : r ∈ rul
     Sub g g' ∧ Just c rules g0 g' ∧ (m = 0 → g' = g) := by
   unfold applyRule at h
   cases hf : ruleFocus c r g with
+  | error e => simp [hf] at h
+  | ok fo =>
+  cases fo with
   | none =>
     simp only [hf, Except.ok.injEq, Prod.mk.injEq] at h
     obtain ⟨h1, _⟩ := h
